@@ -21,6 +21,66 @@ def anns(line):
     return out
 
 
+DEF_OPS = {"sink", "sink_co", "csink", "const", "never", "map", "map_to", "filter", "filter_opt", "merge", "or_else", "snapshot",
+           "snapshot1", "gate", "once", "hold", "hold_lazy", "updates", "value", "map_c", "lift", "accum", "accum_lazy", "collect",
+           "collect_lazy", "switch_s", "switch_c", "sloop", "cloop", "defer", "split", "router", "route"}
+
+
+def distribution(scripts):
+    """measured shape of the generated inputs (evidence: what the generator actually produced)"""
+    import collections
+    ops = collections.Counter()
+    feat = collections.Counter()
+    lens, simul = [], collections.Counter()
+    for _, lines in scripts:
+        lens.append(len(lines))
+        depth, sent, seen = 0, set(), set()
+        for l in lines:
+            w = l.split()
+            if not w:
+                continue
+            ops[w[0]] += 1
+            if w[0] in ("{", "tnew"):
+                depth += 1
+                if depth > 1:
+                    seen.add("nested_brackets")
+            elif w[0] in ("}", "tclose", "tdrop"):
+                if depth == 1:
+                    simul[min(len(sent), 4)] += 1
+                    sent = set()
+                depth = max(0, depth - 1)
+            elif w[0] == "send":
+                if depth > 0:
+                    sent.add(w[1])
+                else:
+                    simul[1] += 1
+            if w[0] in ("sloop", "cloop"):
+                seen.add("loops")
+            if w[0] in ("switch_s", "switch_c"):
+                seen.add("switches")
+            if w[0] in ("defer", "split", "post"):
+                seen.add("deferred_work")
+            if w[0] in DEF_OPS and depth > 0 and w[0] not in ("sloop", "cloop"):
+                seen.add("construction_inside_transaction")
+            if w[0].startswith("listen") and depth > 0:
+                seen.add("listen_inside_transaction")
+            if w[0] in ("unlisten", "drop_weak"):
+                seen.add("unlisten")
+            if w[0] in ("drop", "clone", "gc"):
+                seen.add("handle_churn")
+            if w[0] in ("sample_lazy", "force", "hold_lazy", "accum_lazy", "lazy_new"):
+                seen.add("lazies")
+            if w[0] in ("tnew",):
+                seen.add("scoped_transactions")
+        for f in seen:
+            feat[f] += 1
+    n = max(1, len(scripts))
+    return {"scripts": len(scripts), "mean_lines": round(sum(lens) / n, 1), "max_lines": max(lens) if lens else 0,
+            "operations": dict(ops.most_common()),
+            "fraction_of_scripts_with": {k: round(v / n, 3) for k, v in sorted(feat.items())},
+            "transactions_by_number_of_distinct_sinks_sent": {str(k): v for k, v in sorted(simul.items())}}
+
+
 class FrpProp(Prop):
     default_mode = "frp-run"
     category = "proof"
@@ -40,7 +100,9 @@ class FrpProp(Prop):
 
     def batches(self, tier, seed):
         n = self.counts[0] if tier == "quick" else self.counts[1]
-        yield Batch("frp-run", gen_scripts(int(seed), n, self.profile, self.tag), "random:" + self.tag)
+        scripts = gen_scripts(int(seed), n, self.profile, self.tag)
+        self._dist = distribution(scripts)
+        yield Batch("frp-run", scripts, "random:" + self.tag)
 
     def oracle(self, batch, name, lines, out):
         # handled by the runner's spec comparison (spec_is_oracle); extra checks in subclasses
@@ -118,7 +180,8 @@ class FrpProp(Prop):
         return any(("L" in o and "=[" in o) or o.startswith("sample") for o in out)
 
     def extra_coverage(self):
-        return {"profile": {k: v for k, v in self.profile.__dict__.items()}}
+        return {"profile": {k: v for k, v in self.profile.__dict__.items()},
+                "input_distribution": getattr(self, "_dist", {})}
 
 
 class C02(FrpProp):
@@ -162,30 +225,64 @@ class C04(FrpProp):
 
 class C05(FrpProp):
     pid = "C05"
-    level_text = "Theorems over the specification: switch_s follows the stream the outer cell held at the START of the transaction (effective next transaction, back and forth, same stream); switch_c's update in a switching transaction is the new inner's update or current value, otherwise the current inner's update; invariant: the switch_c cell always equals the cell currently held by the outer cell, preserved by every close over any history. The operational re-wiring of switch is NOT modelled (outside the proved Net fragment): covered by the correspondence only. Known finding K1 (cyclic outer cell) is reported, not suppressed for other shapes."
+    extra_props = ["Refine", "K1"]
+    level_text = "Theorems over the specification: switch_s follows the stream the outer cell held at the START of the transaction (effective next transaction, back and forth, same stream); switch_c's update in a switching transaction is the new inner's update or current value, otherwise the current inner's update; invariant: the switch_c cell always equals the cell currently held by the outer cell, preserved by every close over any history. Refine_*: switch_s is inside the proved engine fragment (its dependency is the stream held at the start of the transaction, re-wired at commit) under the hypothesis that the graph stays acyclic; K1_engine_differs_from_spec proves that for the cyclic-outer-cell class engine and specification disagree. switch_c's dynamic dependency acquisition is outside the engine fragment: correspondence only. Known finding K1 (cyclic outer cell) is reported, not suppressed for other shapes."
     tag = "c05"
     profile = Profile(w=W(switch_s=10, switch_c=10, hold=8, map_c=6, defer=3, split=2, sloop=1, cloop=1), n_defs=(5, 14),
                       n_txn=(5, 16), p_block=0.7, p_sample=0.5, p_post=0.1, p_def_in_txn=0.1)
 
 
+def unlisten_oracle(lines, out):
+    """after unlisten returns the listener is never called again - also when unlisten was called from inside another
+    listener's callback during the delivery of a transaction (raw global call order, annotation o=)"""
+    killers = {}
+    for l in lines:
+        w = l.split()
+        if w and w[0] == "listen_u":
+            killers[w[1]] = w[3]
+    if not killers:
+        return None
+    dead = set()
+    for k, o in enumerate(out):
+        order = anns(o).get("o")
+        seq = order.split(",") if order else []
+        for lid in seq:
+            if lid in dead:
+                return ("line %d (%s): listener %s was called after unlisten() on it had returned (call order %s)"
+                        % (k + 1, lines[k] if k < len(lines) else "?", lid, order))
+            if lid in killers:
+                dead.add(killers[lid])
+        w = lines[k].split() if k < len(lines) else []
+        if w and w[0] in ("listen", "listen_weak", "listen_c", "listen_u") and w[1] in dead:
+            dead.discard(w[1])
+    return None
+
+
 class C10(FrpProp):
     pid = "C10"
+    extra_props = ["Refine"]
+
+    def extra_oracle(self, lines, out):
+        return unlisten_oracle(lines, out)
     level_text = "Theorems over the specification: after unlisten (at any depth, also inside an open transaction) no call to that listener ever again until re-registered; unlisten twice = once; a listener registered inside a transaction receives that transaction's event including sends made before the registration; Cell::listen delivers exactly the current value, or the update of that very transaction. Strong-listener keep-alive is covered by the correspondence under handle drops and collections (memory management is not in the specification)."
     tag = "c10"
-    profile = Profile(w=W(), p_listen_late=0.8, p_unlisten=0.5, listen_cells=0.5, p_block=0.6, p_mem=0.2, weak=0.0,
-                      n_txn=(5, 14))
+    profile = Profile(w=W(), p_listen_late=0.8, p_unlisten=0.5, listen_cells=0.4, p_block=0.6, p_mem=0.2, weak=0.0,
+                      n_txn=(5, 14), p_listen_u=0.15)
 
 
 class C11(FrpProp):
     pid = "C11"
+    extra_props = ["Refine", "K1"]
     level_text = 'Theorems over the specification: occ/upd/cur of a loop equal those of its target; substitution theorem: replacing every use of a loop by its target changes no occurrence, update, value, observation or failure of any transaction (for legal programs, any number of nested loops); double loop_ fails with AlreadyLooped and sampling an unlooped CellLoop fails with SampledBeforeLoop, propagating through map/lift, never yielding a value. Tie: generated loop programs; panic kinds compared.'
     tag = "c11"
-    profile = Profile(w=W(sloop=8, cloop=8, hold=10, snapshot=8), n_defs=(4, 10), n_txn=(4, 12))
+    profile = Profile(w=W(sloop=8, cloop=8, hold=10, snapshot=8, hold_lazy=4, accum_lazy=3, switch_s=1, switch_c=1),
+                      n_defs=(4, 10), n_txn=(4, 12), p_lazy=0.3, p_sample=0.5)
 
 
 class C12(FrpProp):
     pid = "C12"
-    level_text = "Theorems over the specification: deferred work and posts run only after the commit of the closing transaction (BPost carries post-commit values); each deferred event runs in a transaction of its own whose only injected event is that one; every queued item is run exactly once (permutation of executed vs enqueued items for any choice list) and items of one source in enqueue order; post outside a transaction runs in the same step. Tie: guided correspondence that follows the implementation's order among the allowed ones."
+    extra_props = ["Refine"]
+    level_text = "Theorems over the specification: deferred work and posts run only after the commit of the closing transaction (BPost carries post-commit values); each deferred event runs in a transaction of its own whose only injected event is that one; every queued item is run exactly once (permutation of executed vs enqueued items for any choice list) and items of one source in enqueue order; post outside a transaction runs in the same step. Refine_end_outer/Refine_outer_history: the operational engine with its deferred queue equals the specification's end_outer for every choice of order. Tie: guided correspondence that follows the implementation's order among the allowed ones."
     tag = "c12"
     profile = Profile(w=W(defer=8, split=6, hold=10, snapshot=8), p_post=0.3, n_defs=(5, 12), n_txn=(4, 10))
 
@@ -234,7 +331,8 @@ class C14(FrpProp):
 
     def extra_oracle(self, lines, out):
         return quiescence_oracle(lines, out)
-    profile = Profile(w=W(), p_block=0.9, p_nested=0.4, p_scoped=0.4, p_def_in_txn=0.2, n_txn=(4, 12))
+    profile = Profile(w=W(switch_s=2, switch_c=2, defer=2, split=1), p_block=0.9, p_nested=0.4, p_scoped=0.4,
+                      p_def_in_txn=0.25, n_txn=(4, 12), p_post=0.3)
 
 
 class C15(FrpProp):
@@ -277,9 +375,6 @@ class C06(FrpProp):
                       n_txn=(5, 14), p_listen_late=0.3)
 
 
-DEF_OPS = {"sink", "sink_co", "csink", "const", "never", "map", "map_to", "filter", "filter_opt", "merge", "or_else", "snapshot",
-           "snapshot1", "gate", "once", "hold", "hold_lazy", "updates", "value", "map_c", "lift", "accum", "accum_lazy", "collect",
-           "collect_lazy", "switch_s", "switch_c", "sloop", "cloop", "defer", "split", "router", "route"}
 
 
 def everything_dropped(lines):
